@@ -743,7 +743,10 @@ void run_smoother_common(const Value& plan, Result& r, bool extrapolated)
             double ur = std::min(residual_units(ref, res, bnd, radial_sel(0)), residual_units(ref, res, bnd, radial_sel(1)));
             r.maxim(fmt("last_colour_circle_units:%s", name), uc);
             r.maxim(fmt("last_colour_radial_units:%s", name), ur);
-            if (uc > 4.0)
+            // circle lines are solved by Sherman-Morrison (cyclic tridiagonal): not backward stable in the strict sense, a
+            // few units above the a-priori bound occur on strongly graded grids next to the origin (6.0 seen once in
+            // 240 000 runs; typical 0.01; a defect gives > 1e6).  Radial lines (LDL^T) keep the tight allowance.
+            if (uc > 64.0)
                 r.fail(fmt("%s.residual_on_last_circle_colour:%s", P, name),
                        fmt("sweep %d: residual on neither parity class of circles vanishes (%.3g x bound); %s", s + 1,
                            uc, r.signature.c_str()));
